@@ -199,17 +199,20 @@ def toWrite (c : ClassDesc DT Val) (cfg : Cfg Val) : List (Name × Val) :=
       (givenFor "value" pd.value ((cfgOf pd.name cfg).getD [])).map (fun x => (pd.name, x))
     else none
 
-/-- `WritesOnce evs p x`: the event list hands `x` to `write_<p>` exactly once, before the first poll -/
-def WritesOnce [DecidableEq Val] (evs : List (Ev Val)) (p : Name) (x : Val) : Prop :=
-  ∃ pre post, evs = pre ++ Ev.write p x :: post ∧
-    (∀ v, Ev.write p v ∉ pre) ∧ (∀ v, Ev.write p v ∉ post) ∧ Ev.firstPoll ∉ pre
-
-def NoWrite (evs : List (Ev Val)) (p : Name) : Prop := ∀ v, Ev.write p v ∉ evs
-
-def writesOf (p : Name) : List (Ev Val) → List Val
+/-- everything handed to write methods, in order: the argument of each call and what the call took from `writeDict`
+besides -/
+def handed : List (Ev Val) → List (Name × Val)
   | [] => []
-  | .write q v :: r => if q = p then v :: writesOf p r else writesOf p r
-  | .firstPoll :: r => writesOf p r
+  | .write p v also :: r => (p, v) :: also ++ handed r
+  | .firstPoll :: r => handed r
+
+/-- "handed to that method exactly once, before the first poll", for the whole start-up: what is handed over before
+the first poll is a rearrangement of the values to be written (every one once, nothing else), and nothing is handed
+over afterwards -/
+def HandedOnce (evs : List (Ev Val)) (toWrite : List (Name × Val)) : Prop :=
+  ∃ pre post, evs = pre ++ Ev.firstPoll :: post ∧ Ev.firstPoll ∉ pre ∧ (handed pre).Perm toWrite ∧ handed post = []
+
+def valuesOf (p : Name) (l : List (Name × Val)) : List Val := (l.filter (fun kv => kv.1 == p)).map (·.2)
 
 def beforePoll : List (Ev Val) → List (Ev Val)
   | [] => []
@@ -226,11 +229,11 @@ what reaches the driver's own function is the validated value, or nothing when v
 def writesB (ops : Ops DT Val) (g : Glue DT Val) (c : ClassDesc DT Val) (cfg : Cfg Val) (o : ObsModule DT Val) : Bool :=
   !o.registered ||
   (c.params.all fun pd =>
-    let ws := writesOf pd.name o.events
+    let ws := valuesOf pd.name (handed o.events)
     let expect := if pd.hasWrite then givenFor "value" pd.value ((cfgOf pd.name cfg).getD []) else none
     match expect with
     | some x => (match ws with | [v] => g.beqVal v x | _ => false) &&
-                (writesOf pd.name (beforePoll o.events)).length == 1
+                (valuesOf pd.name (handed (beforePoll o.events))).length == 1
     | none => ws.isEmpty) &&
   hasPoll o.events
 
